@@ -18,6 +18,7 @@ RULE = ("bodies = member-presence x type matrix (jsonrpc/id/method/params each a
         "{on,off}; a sample replayed through a real HTTP server (do_POST). distinct = distinct (configuration, body) "
         "pairs; non-trivial = the body is inside the property's domain (NaN/Infinity literals excluded) and the "
         "well-formedness oracle ran on the output.")
+RULE += (" " + 'Also: ids that hold descriptors of objects which cannot be written back (Decimal, set, bytes, complex...) on valid and on invalid entries, alone and in batches.')
 ASSUMPTIONS = [
     "bodies using NaN/Infinity/-Infinity are executed (never-raises still recorded) but not counted as judged",
     "registered callables return JSON-representable values or raise ordinary exceptions",
